@@ -71,7 +71,9 @@ def configs(tier):
                     continue
                 for wu in ((1, "ops"), (5, "docs")):
                     for err in ERRORS:
-                        for ovh in ((0, 0), (0.015625, 0.03125)):
+                        for ovh in ((0, 0), (0.015625, 0.03125), (0, 0.03125, 0.25)):
+                            if len(ovh) > 2 and (len(word) > 1 or err not in ("none", "api-2nd") or wu[0] != 1):
+                                continue
                             for wire in (1, 2):
                                 if tier == "quick" and wire == 2 and (err not in ("none", "api-2nd") or len(word) > 1):
                                     continue
@@ -79,7 +81,8 @@ def configs(tier):
 
 
 def build(cfg):
-    clients, thr, word, (weight, unit), err, (pre, post), wire = cfg
+    clients, thr, word, (weight, unit), err, ovh, wire = cfg
+    pre, post = ovh[:2]
     tparams = {}
     task_kw = {}
     if isinstance(thr, tuple) and thr[0] == "custom":
@@ -94,6 +97,8 @@ def build(cfg):
             return None
         tparams["target-throughput"] = thr
     op_params = {"weight": weight, "unit": unit, "pre": pre, "post": post, "wire": wire}
+    if len(ovh) > 2:
+        op_params["partition-cost"] = ovh[2]  # setting a client up (partitioning its parameter source) takes time
     if err == "unsuccessful-2nd":
         op_params["unsuccessful-at"] = [1]
     task = loadgen.make_task("t", "t", clients=clients, op_params=op_params, iterations=N_ITER, params=tparams, **task_kw)
@@ -120,7 +125,9 @@ def check(cfg, ch, res):
     built = build(cfg)
     if built is None:
         return
-    clients, thr, word, (weight, unit), err, (pre, post), wire = cfg
+    clients, thr, word, (weight, unit), err, ovh, wire = cfg
+    pre, post = ovh[:2]
+    t0 = (ovh[2] * clients) if len(ovh) > 2 else 0.0  # every client is set up before the first one starts: that is where the task's clock starts
     task, allocs, behaviour = built
     r = loadgen.run_worker(allocs, behaviour, on_error="continue", chooser=ch)
     v = None
@@ -182,10 +189,10 @@ def check(cfg, ch, res):
                 elif want_sched is not None and abs(sched - want_sched) > TOL:
                     v = ("scheduled-time", f"{ctx}: the schedule yielded {sched}, the target throughput puts invocation {k} at {want_sched}")
                 elif sched > 0:
-                    if issue < sched - TOL:
+                    if issue - t0 < sched - TOL:
                         v = ("issued-before-schedule", f"{ctx}")
-                    elif abs(s.latency - (last["t_end"] - sched)) > TOL:
-                        v = ("latency-throttled", f"{ctx}: latency {s.latency}, response arrived {last['t_end'] - sched} after the scheduled time")
+                    elif abs(s.latency - (last["t_end"] - t0 - sched)) > TOL:
+                        v = ("latency-throttled", f"{ctx}: latency {s.latency}, response arrived {last['t_end'] - t0 - sched} after the scheduled time")
                     elif s.latency < s.service_time - TOL:
                         v = ("latency-below-service-time", f"{ctx}: latency {s.latency} service {s.service_time}")
                 elif abs(s.latency - s.service_time) > TOL:
@@ -214,9 +221,9 @@ def check(cfg, ch, res):
     if v:
         res.violation(
             f"timing:{v[0]}:{'throttled' if throttled else 'unthrottled'}" + (":multi-request" if wire > 1 else "") + (":error" if err != "none" else ""),
-            f"clients={clients} target={thr} service_times={list(word)} weight/unit={weight}/{unit} errors={err} overhead={pre}/{post} wire={wire} "
+            f"clients={clients} target={thr} service_times={list(word)} weight/unit={weight}/{unit} errors={err} overhead={pre}/{post} setup={t0} wire={wire} "
             f"schedule={list(ch.choices)}: {v[1]}",
-            {"cfg": [clients, list(thr) if isinstance(thr, tuple) else thr, list(word), [weight, unit], err, [pre, post], wire], "choices": list(ch.choices)},
+            {"cfg": [clients, list(thr) if isinstance(thr, tuple) else thr, list(word), [weight, unit], err, list(ovh), wire], "choices": list(ch.choices)},
         )
 
 
